@@ -1,5 +1,6 @@
 import Driver.Decl
 import Driver.Attrs
+import Driver.Yaml
 open Driver
 
 def dispatch (line : String) : String :=
@@ -12,6 +13,9 @@ def dispatch (line : String) : String :=
   | "meaning2" :: args => handleMeaning2 args
   | "fund" :: args => handleFund args
   | "vattrs" :: args => handleVattrs args
+  | "lex" :: args => handleLex args
+  | "yshape" :: args => handleYshape args
+  | "parsestr" :: args => handleParseStr args
   | _ => "bad-op"
 
 partial def loop (h : IO.FS.Stream) (out : IO.FS.Stream) : IO Unit := do
